@@ -181,6 +181,11 @@ extern size_t vrt_alloc_cap;            /* requests above this are refused */
 void vrt_fp_arm(const uint8_t *mask, size_t nbits, int tail);
 void vrt_fp_disarm(void);
 uint64_t vrt_fp_ordinal(void);          /* requests seen since arm */
+/* run stmt while EVERY allocation request of the library is refused: an operation that has no documented way to fail
+ * (clear, erase, pop, traversal, ...) must do its whole job without memory; if an implementation starts to allocate
+ * scratch space there, the refusal is the worst case it has to survive */
+#define VRT_NOMEM(stmt) do { vrt_fp_arm(NULL, 0, 1); { stmt; } \
+        if (vrt_fp_ordinal() > 0) VRT_COUNT("nomem.requests-refused"); vrt_fp_disarm(); VRT_COUNT("nomem.calls"); } while (0)
 /* optional hook called on every library allocator call (C06 schedule points) */
 extern void (*vrt_alloc_hook)(int kind, void *p);
 /* optional: called by vrt_fail() after recording, before leaving the case */
